@@ -60,6 +60,12 @@ public:
         void pop() { data.pop_back(); }
         void pop(uint32_t n);
         uint32_t size() { return data.size(); }
+        /** Removes everything above height \a bottom except the \a top topmost expressions. */
+        void keep_top(uint32_t bottom, uint32_t top)
+        {
+            if (data.size() > bottom + top)
+                data.erase(data.begin() + bottom, data.end() - top);
+        }
     };
 
     class TypeFragments
@@ -144,7 +150,7 @@ public:
     void handle_error(const TypeException&) override;
 
     void parse_begin() override;
-    void parse_end(bool failed) override;
+    void parse_end(bool failed, int results) override;
     void handle_warning(const TypeException&) override;
     void type_duplicate() override;
     void type_pop() override;
